@@ -165,3 +165,5 @@ WORKLOADS = {"vcf": (_n, case_vcf)}
 _Q = {"cli.call-vcf[plumbing]|held": 15, "call.do_call[baf-attached]|held": 100, "tabio.read[vcf]|held": 1000, "vcfio._choose_samples|held": 1000, "cmdutil.load_het_snps|held": 300, "VariantArray.baf_by_ranges|held": 800,
       "VariantArray.mirrored_baf|held": 800, "VariantArray.tumor_boost|held": 100, "call.do_call[allelic]|held": 200}
 QUOTAS = {"quick": _Q, "thorough": _Q}
+
+INTERNAL_MONITORS = {"vcfio._choose_samples": []}
